@@ -2,6 +2,7 @@ package env
 
 import (
 	"bytes"
+	"context"
 	"encoding/json"
 	"fmt"
 	"math"
@@ -9,9 +10,12 @@ import (
 	"path/filepath"
 	"reflect"
 	"slices"
+	"sync"
 	"sync/atomic"
+	"time"
 	"unsafe"
 
+	"github.com/allegro/bigcache/v3"
 	"github.com/canopy-network/canopy/bft"
 	"github.com/canopy-network/canopy/controller"
 	"github.com/canopy-network/canopy/fsm"
@@ -72,8 +76,20 @@ type NodeOpts struct {
 
 var currentNode *Node
 
-// PurgeProcessCaches empties the process-wide block LRU and signature cache.
+var smallSigCache sync.Once
+
+// PurgeProcessCaches empties the process-wide block LRU and signature cache. The first call
+// replaces canopy's 1024-shard signature cache (whose Reset re-allocates every shard,
+// ~15 ms) by an instance with the same semantics and 16 shards, so that a purge is cheap.
 func PurgeProcessCaches() {
+	smallSigCache.Do(func() {
+		c, err := bigcache.New(context.Background(), bigcache.Config{Shards: 16, LifeWindow: time.Hour, CleanWindow: 0,
+			MaxEntriesInWindow: 4096, MaxEntrySize: 1000, HardMaxCacheSize: 64, Verbose: false})
+		if err != nil {
+			panic(err)
+		}
+		crypto.SignatureCache = c
+	})
 	store.VerifC09PurgeBlockCache()
 	_ = crypto.SignatureCache.Reset()
 }
@@ -142,7 +158,13 @@ func (n *Node) boot(st lib.StoreI) lib.ErrorI {
 	if n.Opts.ApproveList {
 		setDeadline(ctrl.Consensus, math.MaxInt64)
 	}
-	return nil
+	// controller.Start(): the first mempool check happens as soon as root-chain info is
+	// available, before any listener runs (it also installs Mempool.stop, which
+	// CommitCertificate calls unconditionally on a non-syncing node)
+	reset := ctrl.SetFSMInConsensusModeForProposals()
+	e = ctrl.Mempool.CheckMempool()
+	reset()
+	return e
 }
 
 // setDeadline writes bft.BFT.deadlineMs (unexported atomic.Int64; only bft.Start writes it in production).
